@@ -120,6 +120,9 @@ POLYHEDRA = {
     'unit-cube': tuple(product((0, 1), (0, 1), (0, 1))),
     'unit-tetra': ((0, 0, 0), (1, 0, 0), (0, 1, 0), (0, 0, 1)),
     'unit-prism': ((0, 0, 0), (1, 0, 0), (0, 1, 0), (0, 0, 1), (1, 0, 1), (0, 1, 1)),
+    # two different oblique parallelepipeds that have a face in the plane 3y + 4z = 0 (parallel to the x axis, not to y or z)
+    'para-A': tuple(X.add(X.add(X.scal(i, (-2, -2, F(3, 2))), X.scal(j, (1, 0, 0))), X.scal(k, (1, F(3, 2), 2))) for i in (0, 1) for j in (0, 1) for k in (0, 1)),
+    'para-B': tuple(X.add((F(1, 4), 1, F(-3, 4)), X.add(X.add(X.scal(i, (-2, 2, F(-3, 2))), X.scal(j, (2, -4, 3))), X.scal(k, (-1, F(-3, 2), -2)))) for i in (0, 1) for j in (0, 1) for k in (0, 1)),
     'spire': ((0, 0, 0), (1, 0, 0), (2, 1, 0), (2, 2, 0), (1, 2, 0), (0, 1, 0), (1, 1, 8)),
     'skew-tetra': ((0, 0, 0), (2, 0, 0), (0, 2, 0), (6, 6, 2)),
     'skew-prism': ((0, 0, 0), (2, 0, 0), (0, 2, 0), (3, 3, 1), (5, 3, 1), (3, 5, 1)),
